@@ -10,7 +10,7 @@ import tempfile
 import time
 import traceback
 import z3
-from .values import Unsupported, SBytes
+from .values import Unsupported, SBytes, UNSIGNED_VARS
 
 ROOT = os.path.dirname(os.path.dirname(os.path.abspath(__file__)))
 REGISTRY = {}     # prop -> [(name, fn, tiers, desc)]
@@ -45,6 +45,8 @@ def pyval(model, t):
     if z3.is_bool(v):
         return z3.is_true(v)
     if isinstance(v, z3.BitVecNumRef):
+        if z3.is_const(t) and t.decl().kind() == z3.Z3_OP_UNINTERPRETED and t.decl().name() in UNSIGNED_VARS:
+            return v.as_long()
         return v.as_signed_long() if v.size() > 8 else v.as_long()
     if isinstance(v, z3.IntNumRef):
         return v.as_long()
